@@ -79,9 +79,10 @@ package protocol
 // C07: the normalised path starts with '/', has no "//", "/./", "/../" and does not end in "/..".
 //@ func normalizePath(dst, src) r
 //@   props C07, C03
-//@   requires !sameArray(dst, src)
+//@   requires !mayAlias(dst, src)
 //@   modifies bytes(dst), spare(dst)
 //@   allocates
+//@   ensures sameArray(r, dst) || fresh(r) || arr(r) < 0
 //@   top-ensures len(r) >= 1 && r[0] == '/'
 //@   top-ensures forall(k, 0, len(r) - 1, !(r[k] == '/' && r[k+1] == '/'))
 //@   top-ensures forall(k, 0, len(r) - 2, !(r[k] == '/' && r[k+1] == '.' && r[k+2] == '/'))
@@ -360,6 +361,7 @@ package protocol
 //@ func URI.Reset(u)
 //@   props C09
 //@   modifies u._all
+//@   ensures sameArray(u.path, old(u.path)) && sameArray(u.pathOriginal, old(u.pathOriginal))
 //@   top-ensures isFresh(u)
 
 //@ func Cookie.Reset(c)
@@ -505,6 +507,19 @@ package protocol
 //@   allocates
 //@ func ResponseHeader.SetProtocol(h, p)
 //@   modifies h._all
+
+// URI.parse: panic-free for every host/uri; the path buffer and the original-path buffer stay separate arrays
+// (normalizePath's precondition), which parse itself preserves.
+//@ func URI.parse(u, host, uri, isTLS)
+//@   props C03
+//@   requires u != nil && !mayAlias(u.path, u.pathOriginal) && arr(u.pathOriginal) >= 0
+//@   modifies u._all, mem
+//@   allocates
+//@   ensures !mayAlias(u.path, u.pathOriginal) && arr(u.pathOriginal) >= 0
+
+//@ func URI.LastPathSegment(u) r
+//@   props C03
+//@   requires u != nil
 
 //@ func ParseContentLength(b) r, err
 //@   props C03
